@@ -19,6 +19,9 @@ def run(rep):
     l5(rep, w)
     l6(rep, w)
     l7(rep, w)
+    l8(rep, w)
+    import c15
+    c15.n1(rep, w)     # a flag left over from an earlier failed run turns a later, unrelated try statement into a phantom error report
 
 
 def first_getter_from(f, b, limit=6):
@@ -470,3 +473,9 @@ def l7(rep, w):
         via = synthetic_roots(f, pl['l'], 3, set()) if pl is not None else []
         r.check(not via, '%s -> error_at' % f.path.replace(P, ''), 'the token passed to error_at here can be one made by Token::from_string (in %s): the compile error is reported at '
                 'line 0 instead of the line of the offending source token' % sorted(set(via))[:3], f.loc(t.get('sp')))
+
+
+def l8(rep, w):
+    import c13
+    r = rep.rule('L8', 'an out-of-range index is an IndexError whatever its magnitude: +-inf and huge integral numbers are integers (one shared classifier)', floor=1)
+    c13.validate_integer_shape(r, w, 'C17')
